@@ -8,6 +8,8 @@ import (
 
 	sdk "github.com/cosmos/cosmos-sdk/types"
 
+	routingtypes "github.com/bianjieai/tibc-go/modules/tibc/core/26-routing/types"
+
 	packettypes "github.com/bianjieai/tibc-go/modules/tibc/core/04-packet/types"
 
 	"verif/mon"
@@ -62,12 +64,15 @@ func drain(w *world.World, rng *rand.Rand, max int) {
 }
 
 // runScript performs the user operations (interleaved with random relaying) with the given relay chain name ("" = direct).
-func runScript(w *world.World, rng *rand.Rand, ops []c11op, relay string) {
+func runScript(w *world.World, rng *rand.Rand, ops []c11op, relay string, between func()) {
 	cs := w.Net.Chains
 	A, C, D := cs[0], cs[2], cs[3]
 	for _, op := range ops {
 		if w.Stop {
 			return
+		}
+		if between != nil {
+			between()
 		}
 		src, dst := A, C
 		if !op.fromA {
@@ -122,7 +127,7 @@ func TestC11(t *testing.T) {
 	rec := mon.New("C11", "exploration",
 		"4 chains (A, relay B, C fully connected; D unknown to B), random rule sets on B, scripts of 3-6 NFT/MT/mock transfers in both directions through B with success and error outcomes on the destination, relayer actions drained in random order; every step on B judged (re-commit iff whitelisted and destination known, else error ack; acks stored unchanged; no callbacks, no token effects); "+
 			"twin runs: the same script with allow-all rules through B and over a direct route must end in identical token state on A and C. distinct = distinct (rule decision, destination known, port, outcome, role) tuples")
-	rec.Require("relay-forwarded", "relay-denied", "acks-passed-back", "error-acks-passed-back", "twin-compared")
+	rec.Require("relay-forwarded", "relay-denied", "acks-passed-back", "error-acks-passed-back", "twin-compared", "whitelist-replaced", "whitelist-revoked")
 	seed := mon.Seed()
 	n := mon.Scale(40, 1200)
 	histories(rec, n, func(i int, rng *rand.Rand) (*world.World, func()) {
@@ -137,8 +142,33 @@ func TestC11(t *testing.T) {
 		w := world.New(fmt.Sprintf("relay%d", i), net, rng)
 		w.Monitors = []world.Monitor{&props.C11{R: rec, Rules: map[string][]string{b: rules}}}
 		ops := c11Script(rand.New(rand.NewSource(seed*77+int64(i))), twin)
+		mon11 := w.Monitors[0].(*props.C11)
+		B := net.Chains[1]
+		// governance replaces the whitelist of the relay chain between transfers (also by the empty list, which revokes
+		// everything); packets in flight are judged by the rules in force when they reach the relay chain
+		reRule := func() {
+			if twin || rng.Intn(3) != 0 {
+				return
+			}
+			nr := append([][]string{{}, {}}, ruleSets...)[rng.Intn(len(ruleSets)+2)]
+			if nr == nil {
+				nr = []string{}
+			}
+			msg := &routingtypes.MsgSetRoutingRules{Title: "t", Description: "d", Rules: nr, Authority: B.GovAddr}
+			r := w.Do(&world.Action{Kind: "gov-rules", On: B, Note: fmt.Sprint(nr), Exec: func(ctx sdk.Context) error {
+				_, err := B.App.MsgServiceRouter().Handler(msg)(ctx, msg)
+				return err
+			}})
+			if r.OK() {
+				mon11.Rules[b] = nr
+				rec.Count("whitelist-replaced", 1)
+				if len(nr) == 0 {
+					rec.Count("whitelist-revoked", 1)
+				}
+			}
+		}
 		return w, func() {
-			runScript(w, rng, ops, b)
+			runScript(w, rng, ops, b, reRule)
 			if !twin || w.Stop {
 				return
 			}
@@ -146,7 +176,7 @@ func TestC11(t *testing.T) {
 			rng2 := rand.New(rand.NewSource(seed*1_000_003 + int64(i)))
 			net2 := c11Net(seed*1009+int64(i), rng2, rules)
 			w2 := world.New(fmt.Sprintf("relay%d-direct", i), net2, rng2)
-			runScript(w2, rng2, ops, "")
+			runScript(w2, rng2, ops, "", nil)
 			for _, idx := range []int{0, 2} {
 				s1, s2 := tokenState(net.Chains[idx]), tokenState(net2.Chains[idx])
 				rec.Judge("twin", idx, len(ops), len(s1.Nft), len(s1.Bal))
